@@ -1423,4 +1423,30 @@ example : (Channel.restore_payments (PaymentPreimage := Nat)
     = some (some [(3, 1000)]) := by decide
 end ChanRestore
 
+/-! ## Round 10 (b4): `NodeState::validate_and_apply_payments` (node.rs, the `#[cfg(test)]` composition used by the repo's own
+unit tests) — validation first, and nothing applied when it refuses (own target file `fn_targets/NodePay.b4.json`, area `NodePay`) -/
+section ValidateAndApply
+open VlsModel.Gen.FnNodePay (NodeState)
+variable {PH CI PP V : Type} [DecidableEq PH] [DecidableEq CI]
+
+theorem C06_fn_validate_and_apply_payments (cl : V → Nat → Nat → Rs.M Unit) (bl : V → Nat → Nat → Option Nat → Rs.M (Option Unit))
+    (pf : String → Bool) (eb : V → Bool) (dp : PP) (s : NodeState PH CI PP) (c : CI) (inS outS : List (PH × Nat))
+    (bd : Nat × Nat) (v : V) :
+    NodeState.validate_and_apply_payments cl bl pf eb dp s c inS outS bd v
+      = (do let _ ← NodeState.validate_payments cl bl pf eb s c inS outS bd v
+            NodeState.apply_payments eb dp s c inS outS bd v none) ∧
+    (∀ e, NodeState.validate_payments cl bl pf eb s c inS outS bd v = .error e →
+      NodeState.validate_and_apply_payments cl bl pf eb dp s c inS outS bd v = .error e) := by
+  constructor
+  · unfold NodeState.validate_and_apply_payments
+    cases NodeState.validate_payments cl bl pf eb s c inS outS bd v with
+    | error e => rfl
+    | ok u =>
+      simp only [Rs.bind_ok]
+      cases NodeState.apply_payments eb dp s c inS outS bd v none <;> rfl
+  · intro e he
+    unfold NodeState.validate_and_apply_payments
+    rw [he]; rfl
+end ValidateAndApply
+
 end VlsModel.Props.C06Fn
